@@ -490,6 +490,16 @@ func (s *Service) buildMetaData(msg service.DIDCommMsgMap, direction messageDire
 		return nil, fmt.Errorf("invalid state transition: %s -> %s", current.Name(), next.Name())
 	}
 
+	// the states above take the protocol version from the type of the message being handled; the options applied on
+	// Continue build the message form for the version recorded here, so it must be the same one (the version stored
+	// with the instance is the one of an earlier message: with the other version the state dereferences a nil form)
+	protocolVersion := data.ProtocolVersion
+	if protocolVersion == version2 && getVersion(msg.Type()) == SpecV3 {
+		protocolVersion = version3
+	} else if protocolVersion == version3 && getVersion(msg.Type()) == SpecV2 {
+		protocolVersion = version2
+	}
+
 	return &metaData{
 		transitionalPayload: transitionalPayload{
 			StateName:   next.Name(),
@@ -499,7 +509,7 @@ func (s *Service) buildMetaData(msg service.DIDCommMsgMap, direction messageDire
 				PIID: piID,
 			},
 			Direction:       direction,
-			ProtocolVersion: data.ProtocolVersion,
+			ProtocolVersion: protocolVersion,
 			Properties:      next.Properties(),
 		},
 		properties: next.Properties(),
